@@ -433,8 +433,56 @@ func runC02(c *Ctx) {
 	{
 		lf := p.newLockFacts()
 		lf.analyseScope(fns)
-		checkWaiterInsertAbsent(c, lf)
+		inserter, keyBase := checkWaiterInsertAbsent(c, lf)
+
+		c.rule("R9", "the waiter is registered under the 16-bit id that goes on the wire and that the reader looks up (a reply to a registered query always finds its waiter)", 2)
+		if inserter != nil {
+			is16 := false
+			if keyBase != nil {
+				if b, ok := keyBase.Type().Underlying().(*types.Basic); ok && b.Kind() == types.Uint16 {
+					is16 = true
+				}
+			}
+			ret := false
+			for _, r := range returnsOf(inserter) {
+				rv := returnedValues(r)
+				if len(rv) > 0 && keyBase != nil && rv[0] == keyBase {
+					ret = true
+				}
+			}
+			c.check(is16 && ret, "registered-key-is-wire-id@"+funcName(inserter), inserter.Pos(), "the table key is uint32(id) of the uint16 id returned for the wire",
+				"the key under which the waiter is registered is not the widened 16-bit id returned for the wire: once they differ (e.g. a counter past 65535) the reader's lookup by the reply's 16-bit id misses and a reply that arrived in time is dropped")
+			// the reader looks up by uint32(uint16 id read at offset 0)
+			n := 0
+			for _, f := range fns {
+				eachInstr(f, func(in ssa.Instruction) {
+					lk, ok := in.(*ssa.Lookup)
+					if !ok || lk.CommaOk {
+						return
+					}
+					if k, ok := loadedField(lk.X); !ok || k != relTransport+".TraditionalDnsConn.queue" {
+						return
+					}
+					n++
+					cv, ok := lk.Index.(*ssa.Convert)
+					good := false
+					if ok {
+						if b, ok := cv.X.Type().Underlying().(*types.Basic); ok && b.Kind() == types.Uint16 {
+							good = true
+						}
+					}
+					c.check(good, "lookup-key-is-wire-id@"+funcName(f), instrPos(lk), "the reader's lookup key is uint32(16-bit id)", "the reader does not look the waiter up by the widened 16-bit id")
+				})
+			}
+			if n == 0 {
+				c.anchorMissing("reader lookup in TraditionalDnsConn.queue")
+			}
+		}
 	}
+
+	// ---------------------------------------------------------------- R8
+	c.rule("R8", "the stream frame reader takes bytes from the connection only through io.ReadFull (no reply bytes are dropped at EOF)", 1)
+	checkFrameReaderReadFull(c)
 
 	// ---------------------------------------------------------------- R4
 	c.rule("R4", "the pipelined reader re-arms the idle read deadline before every read", 1)
